@@ -534,7 +534,7 @@ class TaskScenario(ScenarioData):
                                 dep_time_idx = self.project.dateToIdx(dep_time)
                                 # Skip gap_slots of working time
                                 working_slots = 0
-                                while working_slots < gap_slots:
+                                while working_slots < gap_slots and self._insideHorizon(dep_time_idx):
                                     if self.isWorkingTime(dep_time_idx):
                                         working_slots += 1
                                     dep_time_idx += 1
@@ -622,6 +622,11 @@ class TaskScenario(ScenarioData):
                 if end_date:
                     # For ALAP, start from the last working slot BEFORE the end date
                     self.currentSlotIdx = self.project.dateToIdx(end_date) - 1
+                    if not self._insideHorizon(self.currentSlotIdx):
+                        # Deadline outside the scheduling horizon: cannot be placed
+                        self.currentSlotIdx = None
+                        self.isRunAway = True
+                        return False
                     # Find the last working slot
                     # For effort tasks with allocations, check resource availability
                     # (respects resource timezone and working hours)
@@ -643,6 +648,12 @@ class TaskScenario(ScenarioData):
                     else:
                         while self.currentSlotIdx > lowerLimit and not self.isWorkingTime(self.currentSlotIdx):
                             self.currentSlotIdx -= 1
+
+        if not self._insideHorizon(self.currentSlotIdx):
+            # Pinned date or dependency bound outside the scheduling horizon: cannot be placed
+            self.currentSlotIdx = None
+            self.isRunAway = True
+            return False
 
         # For effort tasks with allocations, don't set start yet - it will be set
         # when first resource is booked. For non-effort tasks, find first working slot.
@@ -823,6 +834,14 @@ class TaskScenario(ScenarioData):
                 return False
 
         return True
+
+    def _insideHorizon(self, slot_idx: Optional[int]) -> bool:
+        """True if the slot index lies inside the scheduling horizon (the slot tables)."""
+        if slot_idx is None:
+            return False
+        lower: int = self.project.dateToIdx(self.project["start"])
+        upper: int = self.project.dateToIdx(self.project["end"])
+        return lower <= slot_idx <= upper
 
     def _hasOwnStart(self) -> bool:
         """True if the start date was given for this task itself (not inherited from a container)."""
